@@ -8,6 +8,12 @@ def generate(G):
         ("reshape_view", 8, "quick", "reshape view sharing storage; ops on view and original; backward through the view; sum(0) clone"),
         ("optimizer_update", 6, "quick", "forward, backward, gradient fetched, GradientDescent::update: older handles intact, new value = old - lr*g"),
         ("drop_others", 6, "quick", "clone dropped, derived results dropped (real drops) before and after a pass"),
+        ("accumulate_shared", 6, "quick", "y = a + a*k: first adjoint of a through the addition (shared buffer), second a fresh array; seed and stored gradients re-checked; second pass"),
     ]:
         G.ob("c08_" + name, "C08", name, "c08::%s(s)" % name, unwind=unwind, tier=tier, skeleton={"history": what},
              domains="values, seeds D4; lr in {0,0.5,1,2}")
+    for late, tier in ((False, "quick"), (True, "thorough")):
+        G.ob("c08_update_after_graph_dropped_%d" % late, "C08", "update_after_graph_dropped",
+             "c08::update_after_graph_dropped(s, %s)" % ("true" if late else "false"), unwind=8, tier=tier,
+             skeleton={"history": "reshape view of a not-%s-tracked array; forward, backward, graph really dropped, GradientDescent::update; the view is unchanged" % ("currently" if late else "yet")},
+             domains="values D4; lr in {0,0.5,1,2}")
